@@ -36,6 +36,15 @@ def ensure_engine():
 def run_engine(run, tier, seed, workdir, idx):
     """one gosym process (one harness function, one parameter setting, one shard)"""
     out = os.path.join(workdir, "res_%d.json" % idx)
+    if run.get("kind") == "metricscan":
+        t0 = time.time()
+        r = subprocess.run([GOSYM, "-metricscan", "-dir", HARNESS, "-out", out], stdout=subprocess.PIPE, stderr=subprocess.STDOUT, text=True, env=ENGINE_ENV)
+        res = json.load(open(out)) if os.path.exists(out) else None
+        if res is not None:
+            res.setdefault("paths_other_shard", 0)
+            for k in ("queries", "sat", "unsat", "unknown", "solver_time_s", "wall_s", "max_depth"):
+                res.setdefault(k, 0)
+        return {"run": run, "rc": r.returncode, "log": r.stdout[-4000:], "res": res, "wall": time.time() - t0}
     cmd = [GOSYM, "-dir", HARNESS, "-pkg", run["pkg"], "-fn", run["fn"], "-out", out,
            "-seed", str(seed), "-timeout", run.get("timeout", "20m"),
            "-maxpaths", str(run.get("maxpaths", 2000000)),
@@ -184,17 +193,26 @@ def main():
     confirmed, unconfirmed, known_hits = [], [], {}
     by_pkg = {}
     uniq = {}
+    other_props = set()
     for run, v in violations:
+        if v["kind"] == "assert" and v["id"][0] == "C" and pid not in v["id"].split(".")[0].split("-"):
+            other_props.add(v["id"])
+            continue  # belongs to another property's check (same harness, other assertion group)
         key = (run["pkg"], run["fn"], v["id"], v.get("known", ""))
         if key not in uniq:
             uniq[key] = (run, v)
     for (pkg, fn, vid, ktag), (run, v) in uniq.items():
         tags = [t for t in ktag.split("+") if t]
         hit = [t for t in tags if t in known_here]
-        case = {"fn": fn, "inputs": v["inputs"], "params": run.get("params", {})}
-        evs, raw = native_replay(pkg, [case])
-        ev = evs[0] if evs else []
-        if v["kind"] == "assert":
+        case = {"fn": fn, "inputs": v.get("inputs") or {}, "params": run.get("params", {})}
+        if v["kind"] == "static":
+            evs, raw, ev = [], "", []
+        else:
+            evs, raw = native_replay(pkg, [case])
+            ev = evs[0] if evs else []
+        if v["kind"] == "static":
+            ok = True  # deterministic scan of the source: re-running the scan is the replay
+        elif v["kind"] == "assert":
             ok = ("A:%s:0" % vid) in ev
         elif v["kind"] == "panic":
             ok = any(e.startswith("P:") for e in ev)
@@ -234,8 +252,12 @@ def main():
 
     # ---- native cross-validation of passing paths ----
     validated, mismatches = 0, []
+    static_samples = []
     groups = {}
     for run, s in crossval:
+        if run.get("kind") == "metricscan":
+            static_samples.append(s["events"][0])
+            continue
         groups.setdefault(run["pkg"], []).append((run, s))
     samples_out = []
     for pkg, lst in groups.items():
@@ -261,6 +283,8 @@ def main():
             rec["assertion"], rec["harness"], json.dumps(rec)[:1200]))
 
     wall = time.time() - t_start
+    if static_samples:
+        samples_out.append({"static_scan_sites": static_samples})
     if not samples_out:
         samples_out = [{"note": "no passing path sampled", "runs": [p["harness"] for p in per_run][:4]}]
     ev = {
@@ -278,7 +302,7 @@ def main():
             "functions_encoded": dict(sorted(functions.items(), key=lambda kv: -kv[1])[:80]),
             "stubs_used": stubs, "vacuity_witnesses": reached, "runs": per_run,
             "inconclusive": inconclusive[:20],
-            "known_findings_seen": sorted(known_hits), "outside_claim": chk.get("outside", []),
+            "known_findings_seen": sorted(known_hits), "violations_of_other_properties_seen": sorted(other_props), "outside_claim": chk.get("outside", []),
             "confirmed_violations": [r for r, _ in confirmed][:5],
         },
         "assumptions": chk.get("assumptions", []),
